@@ -4,7 +4,10 @@ use syn::{Error, FnArg, Pat};
 
 use super::{
     types::{ArgInfo, MethodAttrs},
-    utils::{convert_to_single_lifetime, snake_case_to_pascal_case, type_contains_lifetime},
+    utils::{
+        convert_to_single_lifetime, extract_param_rename_attr, param_serde_attrs,
+        snake_case_to_pascal_case, type_contains_lifetime,
+    },
 };
 
 pub(super) fn generate_chain_method(
@@ -81,6 +84,7 @@ pub(super) fn generate_chain_method(
     };
 
     // Generate the method call creation code for the implementation
+    let is_more = method_attrs.is_streaming;
     let method_call_creation = generate_method_call_creation(
         &arg_infos,
         &arg_names,
@@ -104,6 +108,7 @@ pub(super) fn generate_chain_method(
         #chain_where
         {
             #method_call_creation
+            let call = call.set_more(#is_more);
             self.chain_call(&call)
         }
     };
@@ -141,12 +146,19 @@ fn parse_method_arguments<'a>(
             // Check if this argument has lifetimes
             let has_lifetime = type_contains_lifetime(&ty_for_params);
 
+            // Same wire name and `None` handling as the plain method (the attribute itself is
+            // removed from the signature when the plain method is generated).
+            let serialized_name = extract_param_rename_attr(&mut pat_type.attrs.clone())
+                .ok()
+                .flatten();
+            let is_optional = crate::utils::is_option_type(ty);
+
             Some(Ok(ArgInfo {
                 name,
                 ty_for_params,
                 has_lifetime,
-                is_optional: false,
-                serialized_name: None,
+                is_optional,
+                serialized_name,
             }))
         })
         .collect()
@@ -192,7 +204,8 @@ fn generate_method_call_creation(
             .map(|info| {
                 let name = info.name;
                 let ty = &info.ty_for_params;
-                quote! { pub #name: #ty }
+                let serde_attrs = param_serde_attrs(info);
+                quote! { #serde_attrs pub #name: #ty }
             })
             .collect();
 
